@@ -15,7 +15,7 @@ import (
 func init() {
 	register(&Spec{ID: "C19", Title: "A version has a capability exactly inside the capability's ranges", Run: runC19,
 		Meta: core.Meta{
-			Explanation: "R19.1 (E-ABS, finite-domain abstract evaluation): VersionRange.contains uses its string inputs only through `== \"\"` tests and through the comparer, and the comparer's results only through comparisons with 0 and nil (checked by def-use; any other use makes the obligation undecided). Under that premise the function is a finite decision table over the abstract inputs (Introduced empty?, Removed empty?, outcome of cmp(Introduced, version) ∈ {<0, 0, >0, error}, outcome of cmp(version, Removed) ∈ {<0, 0, >0, error}); the engine walks the loop-free SSA under each of the 64 abstract inputs (every branch is determinate) and compares the result with the property's own table: both empty → false; a needed comparison fails → error; otherwise (no lower ∨ lower ≤ version) ∧ (no upper ∨ version < upper). The argument order of each comparer call is part of the abstraction. R19.2 (SetCapabilities): SetCapability(cap, true) only on the contains == true edge; SetCapability(cap, false) only on the other; the loop over a capability's ranges is left early ONLY after SetCapability(cap, true) (any other early exit makes the answer depend on the order of ranges); for ranges with both bounds the comparer error and the `i >= 0` (inverted or zero-width) edges return errors before contains is called; contains' error is returned; a nil comparer defaults to VersionCompareSemantic. R19.3: DefaultVersion.Has is a comma-ok lookup that answers false when absent. R19.4: VersionCompareSemantic answers without error only after BOTH version strings were parsed successfully (no shortcut that lets an unparsable version through). R19.5: NewCapability pairs its version strings by argument position — Introduced is assigned only on the even-index edge of i%2, Removed only on the odd-index edge.",
+			Explanation: "R19.1 (E-ABS, finite-domain abstract evaluation): VersionRange.contains uses its string inputs only through `== \"\"` tests and through the comparer, and the comparer's results only through comparisons with 0 and nil (checked by def-use; any other use makes the obligation undecided). Under that premise the function is a finite decision table over the abstract inputs (Introduced empty?, Removed empty?, outcome of cmp(Introduced, version) ∈ {<0, 0, >0, error}, outcome of cmp(version, Removed) ∈ {<0, 0, >0, error}); the engine walks the loop-free SSA under each of the 64 abstract inputs (every branch is determinate) and compares the result with the property's own table: both empty → false; a needed comparison fails → error; otherwise (no lower ∨ lower ≤ version) ∧ (no upper ∨ version < upper). The argument order of each comparer call is part of the abstraction. R19.2 (SetCapabilities): SetCapability(cap, true) only on the contains == true edge; SetCapability(cap, false) only on the other; the loop over a capability's ranges is left early ONLY after SetCapability(cap, true) (any other early exit makes the answer depend on the order of ranges); for ranges with both bounds the comparer error and the `i >= 0` (inverted or zero-width) edges return errors before contains is called; contains' error is returned; a nil comparer defaults to VersionCompareSemantic. R19.3: DefaultVersion.Has is a comma-ok lookup that answers false when absent. R19.4: VersionCompareSemantic answers without error only after BOTH version strings were parsed successfully (no shortcut that lets an unparsable version through). R19.6: SetCapabilities, contains, VersionCompareSemantic and Has read and write no package-level variable (a cache of earlier evaluations would make the outcome of evaluating a range depend on history instead of on the range and the version). R19.5: NewCapability pairs its version strings by argument position — Introduced is assigned only on the even-index edge of i%2, Removed only on the odd-index edge.",
 			NotDecided:  "The semantic-version library itself and NewCapability's pairing of strings are not decided.",
 			Assumptions: []string{"the comparer is a pure function of its two arguments"},
 		}})
@@ -26,12 +26,14 @@ func runC19(r *core.Run) {
 	r.Rule("R19.2", "SetCapabilities: first containing range wins, nothing else ends the range loop, invalid ranges are errors", 6, false)
 	r.Rule("R19.3", "Has answers false for capabilities that were never set", 1, false)
 	r.Rule("R19.4", "the default comparer parses both versions before answering", 1, false)
+	r.Rule("R19.6", "the answer depends only on the inputs: no package-level state is consulted", 4, false)
 	r.Rule("R19.5", "NewCapability pairs version strings by argument position (even = lower bound, odd = upper bound)", 2, false)
 	c19Contains(r)
 	c19Set(r)
 	c19Has(r)
 	c19Comparer(r)
 	c19Pairing(r)
+	c19Stateless(r)
 }
 
 type absOutcome int
@@ -390,15 +392,19 @@ func c19Set(r *core.Run) {
 		}
 	}
 	// SetCapability invokes
-	var setTrue, setFalse []*ssa.Call
+	var setTrue, setFalse, setByValue []*ssa.Call
 	for _, c := range core.Calls(fn) {
 		call, ok := c.(*ssa.Call)
 		if !ok || !call.Call.IsInvoke() || call.Call.Method.Name() != "SetCapability" {
 			continue
 		}
+		if call.Call.Args[1] == containsVal && containsVal != nil {
+			setByValue = append(setByValue, call) // SetCapability(cap, contains): true exactly when the range contains the version
+			continue
+		}
 		b, isC := call.Call.Args[1].(*ssa.Const)
 		if !isC || b.Value == nil {
-			r.Bad("R19.2", "SetCapabilities: SetCapability with a constant", call.Pos(), "SetCapability is called with a computed value")
+			r.Bad("R19.2", "SetCapabilities: SetCapability with a constant", call.Pos(), "SetCapability is called with a value other than true/false constants or the result of contains")
 			continue
 		}
 		if b.Value.ExactString() == "true" {
@@ -416,6 +422,9 @@ func c19Set(r *core.Run) {
 		return false
 	}
 	okT := len(setTrue) == 1 && guarded(setTrue[0], true) && errNilGuard(core.GuardsAt(setTrue[0]), cc)
+	if len(setTrue) == 0 && len(setByValue) == 1 && errNilGuard(core.GuardsAt(setByValue[0]), cc) {
+		okT = true
+	}
 	r.Check(okT, "R19.2", "SetCapabilities: true only when a range contains the version", fn.Pos(), "SetCapability(cap, true) on the contains == true edge, error nil", "a capability is reported although no range was found to contain the version")
 	okF := true
 	for _, c := range setFalse {
@@ -450,6 +459,16 @@ func c19Set(r *core.Run) {
 				for _, c := range setTrue {
 					if c.Block() == b || c.Block().Dominates(b) || c.Block() == s {
 						fromTrue = true
+					}
+				}
+				// or the exit edge itself is the contains == true edge (SetCapability(cap, contains); if contains { break })
+				for _, g := range core.GuardsOnEdge(b, s) {
+					if g.Cond == containsVal && g.Pol && len(setByValue) > 0 {
+						for _, c := range setByValue {
+							if c.Block() == b || c.Block().Dominates(b) {
+								fromTrue = true
+							}
+						}
 					}
 				}
 				if !fromTrue {
@@ -692,5 +711,26 @@ func c19Pairing(r *core.Run) {
 			ok, why = false, f.field.Name()+" is never assigned from the arguments"
 		}
 		r.Check(ok, "R19.5", "NewCapability: "+f.field.Name()+" from "+f.want+" positions", fn.Pos(), "assigned only under i%2 "+map[string]string{"even": "== 0", "odd": "!= 0"}[f.want], why)
+	}
+}
+
+func c19Stateless(r *core.Run) {
+	p := r.Prog
+	fns := []*ssa.Function{
+		p.Func("capability", "Target", "SetCapabilities"), p.Func("capability", "VersionRange", "contains"),
+		p.Func("capability", "", "VersionCompareSemantic"), p.Func("capability", "DefaultVersion", "Has"),
+	}
+	for _, fn := range fns {
+		bad := ""
+		for _, b := range fn.Blocks {
+			for _, in := range b.Instrs {
+				for _, op := range in.Operands(nil) {
+					if g, ok := (*op).(*ssa.Global); ok && g.Pkg != nil && core.InModule(fn) && g.Pkg.Pkg.Path() == fn.Pkg.Pkg.Path() {
+						bad = g.Name()
+					}
+				}
+			}
+		}
+		r.Check(bad == "", "R19.6", core.FuncName(fn)+": consults no package-level variable", fn.Pos(), "pure function of its inputs", "the function uses the package-level variable "+bad+": what an evaluation answers (or whether an invalid range is reported) then depends on earlier evaluations")
 	}
 }
